@@ -14,7 +14,7 @@ CFG = {'assumptions': ['ids unbounded nat',
  'theorem_backed': 'for every term-level command history over constructor tables: run terminates without '
                    'panic (rebuild fuel suffices), soundness (no invented equality), completeness (no missed '
                    'equality) w.r.t. the congruence closure of the asserted unions, UnionId merge agrees '
-                   "with the union-find's choice; for every program of the rule interpreter in the constructor fragment (prog_ctor_okb): every state reached is the result of a term-level history (c01_rules_history/stepwise), hence c01_rules_sound/complete/iff',
+                   "with the union-find's choice; for every program of the rule interpreter in the constructor fragment (prog_ctor_okb): every state reached is the result of a term-level history (c01_rules_history/stepwise), hence c01_rules_sound/complete/iff",
  'tier_a': ['UFSeq', 'MergeArms', 'BridgeFns'],
  'trusted': ['translator /verif/translator: gen/UFSeq.v (union-find), gen/MergeArms.v (UnionId=min, Old, '
              'New), gen/BridgeFns.v (combine_subsumed) are regenerated from the source on every run and used '
